@@ -137,6 +137,7 @@ def _worker_run(item):
     idx, unit = item
     mod = _WORK["mod"]
     ctx = Ctx(mod.ID, _WORK["tier"], _WORK["seed"], idx)
+    t_unit = time.time()
     try:
         from isomc import impl
         impl.reset_mode()
@@ -144,7 +145,10 @@ def _worker_run(item):
         impl.reset_mode()
     except BaseException:
         return {"unit_index": idx, "harness_error": traceback.format_exc(), "unit": repr(unit)[:500]}
-    return ctx.result()
+    res = ctx.result()
+    res["wall"] = time.time() - t_unit
+    res["unit"] = repr(unit)[:200]
+    return res
 
 
 def _selfcheck_run(u):
@@ -199,6 +203,9 @@ def run_check(check_id, tier, seed):
             len(herr), herr[0]["harness_error"], herr[0]["unit"]))
         return 2
 
+    if os.environ.get("VERIF_DEBUG"):
+        for r in sorted(results, key=lambda r: -r["wall"])[:5]:
+            sys.stderr.write("slow unit %.1fs %s\n" % (r["wall"], r["unit"]))
     transitions = sum(r["transitions"] for r in results)
     traces = sum(r["traces"] for r in results)
     states = set()
